@@ -28,13 +28,17 @@ func crashUnits(prop, tier string) []Unit {
 				o.Nested = 0
 				o.Clocks = []int{0}
 			}
+			if w.Name == "W10-multikey-deletes-cascade" {
+				budgets = []int{0}
+				o.Nested = 0
+			}
 		case "C04":
 			o = crashOpts{Clocks: []int{0, 1, 2}, Atomicity: true, Nested: 1}
 			budgets = []int{0, 1}
 			if tier == "thorough" {
 				budgets = []int{0, 1, 2}
 			}
-			if w.Name != "W6-multikey-atomicity" && w.Name != "W4-multikey-straddles-rotation" && w.Name != "W7-large-multikey" && w.Name != "W8-two-committers" {
+			if w.Name != "W6-multikey-atomicity" && w.Name != "W4-multikey-straddles-rotation" && w.Name != "W7-large-multikey" && w.Name != "W8-two-committers" && w.Name != "W10-multikey-deletes-cascade" {
 				continue
 			}
 			if w.Name == "W7-large-multikey" {
@@ -48,7 +52,7 @@ func crashUnits(prop, tier string) []Unit {
 				o.Nested = 1
 				budgets = []int{0, 1, 2}
 			}
-			if w.Name == "W6-multikey-atomicity" || w.Name == "W9-many-tables" {
+			if w.Name == "W6-multikey-atomicity" || w.Name == "W9-many-tables" || w.Name == "W10-multikey-deletes-cascade" {
 				continue
 			}
 			if w.Name == "W7-large-multikey" {
